@@ -142,6 +142,22 @@ def str_cat(a, b):
     return ('cat', out)
 
 
+def str_chars(s):
+    """The characters of an abstract string as a list of 8-bit values, or None when a part has no known length."""
+    parts = [s] if isinstance(s, tuple) and s and s[0] in ('str', 'opaque') else (list(s[1]) if isinstance(s, tuple) and s and s[0] == 'cat' else None)
+    if parts is None:
+        return None
+    out = []
+    for p_ in parts:
+        if p_[0] == 'str':
+            out += [const(8, True, ord(c) if ord(c) < 128 else ord(c) - 256) for c in p_[1]]
+        elif p_[0] == 'opaque' and isinstance(p_[1], IV) and p_[1].w == 8:
+            out.append(p_[1])
+        else:
+            return None
+    return out
+
+
 def _is_string_type(t):
     t = t.replace('const ', '').strip()
     return t.startswith('std::basic_string<') or t.startswith('std::__cxx11::basic_string<') or t in ('std::string',)
@@ -1242,6 +1258,8 @@ class Interp:
                 return o
             if isinstance(o, tuple) and o and o[0] == 'str' and name in ('size', 'length'):
                 return const(64, False, len(o[1]))
+            if isinstance(o, tuple) and o and o[0] == 'cat' and name in ('size', 'length') and str_chars(o) is not None:
+                return const(64, False, len(str_chars(o)))
             if isinstance(o, tuple) and o and o[0] == 'str' and name == 'empty':
                 return const(1, False, int(len(o[1]) == 0))
             if isinstance(o, tuple) and o and o[0] in ('str', 'cat', 'num') and name in ('push_back', 'append') and len(args) == 1:
